@@ -205,11 +205,20 @@ class RefExecutor:
             exec(compile(source, filename, 'exec'), self.ns)
         return self._guarded(thunk, fault)
 
-    def call(self, fn, args=(), kwargs=None, fault=None):
+    def call(self, fn, args=(), kwargs=None, fault=None, args_locals=None):
         kwargs = kwargs or {}
 
         def thunk():
-            return self.ns[fn](*args, **kwargs)
+            a = list(args)
+            for i, expr in enumerate(args_locals or []):
+                if expr is not None:
+                    # args_locals: the argument is an expression evaluated in the student's namespace
+                    val = eval(compile(expr, '<ref-arg>', 'eval'), self.ns)
+                    if i < len(a):
+                        a[i] = val
+                    else:
+                        a.append(val)
+            return self.ns[fn](*a, **kwargs)
         return self._guarded(thunk, fault)
 
     def evaluate(self, expr, fault=None):
